@@ -163,7 +163,11 @@ def m_vec_push(E, st, fr, bi, callee, args, dest_ty):
     one = usize(E, st, 1)
     newlen = E.binop(st, "Add", s.len, one, E.ctx.usize_ty(), False)
     if ln == 0 and not s.head:
-        new = Sq(args[1], newlen, None, None)
+        new = Sq(args[1], newlen, {0: args[1]}, None)
+    elif ln is not None and ln < 64 and s.head and len(s.head) == ln:
+        h = dict(s.head)
+        h[ln] = args[1]
+        new = Sq(E.join_vals(st, s.elem, args[1]), newlen, h, None)
     else:
         new = Sq(E.join_vals(st, E._flat_elem(st, s), args[1]), newlen, None, None)
     write_through(E, st, p, new)
@@ -1180,6 +1184,7 @@ def build(ctx):
     A(r"^(core|std)::slice::<impl \[.*\]>::(iter|iter_mut)$", m_slice_iter)
     A(r"^(core|std)::slice::<impl \[.*\]>::concat::<", m_concat)
     A(r"^<&(mut )?\[.*\] as std::iter::IntoIterator>::into_iter$", m_slice_iter)
+    A(r"^(core|std)::slice::iter::<impl std::iter::IntoIterator for &(mut )?\[.*\]>::into_iter$", m_slice_iter)
     A(r"^(core|std)::array::<impl std::iter::IntoIterator for &(mut )?\[.*\]>::into_iter$", m_slice_iter)
     A(r"^(core|std)::array::<impl std::iter::IntoIterator for \[.*\]>::into_iter$", m_vec_into_iter)
     A(r"^(core|std)::array::<impl std::convert::TryFrom<.*> for \[.*\]>::try_from$", m_try_from_slice_array)
